@@ -73,20 +73,20 @@ Theorem C08_status_class_unknown_asset : forall fx e path nowArg uq now c,
 Proof. exact unknown_asset_is_404. Qed.
 Print Assumptions C08_status_class_unknown_asset.
 
-Theorem C08_status_class_below_start : forall r loopMS c segPart segID now,
+Theorem C08_status_class_below_start : forall fx r loopMS c segPart segID now,
   rep_type c segPart = 0 -> u32 segID < u32 (start_nr c) ->
-  lookup_plain r loopMS c segPart segID now = Ret e404.
+  lookup_plain fx r loopMS c segPart segID now = Ret e404.
 Proof. exact below_start_is_404_plain. Qed.
 Print Assumptions C08_status_class_below_start.
 
-Theorem C08_status_class_below_start_audio : forall a r c segPart segID now,
+Theorem C08_status_class_below_start_audio : forall fx a r c segPart segID now,
   rep_type c segPart = 0 -> u32 segID < u32 (start_nr c) ->
-  find_ref_seg_meta a r c segPart segID now = Ret e404.
+  find_ref_seg_meta fx a r c segPart segID now = Ret e404.
 Proof. exact below_start_is_404_audio. Qed.
 Print Assumptions C08_status_class_below_start_audio.
 
-Theorem C08_status_class_unknown_rep : forall a c segPart now,
-  find_rep (a_reps a) segPart = RMnone -> create_out_seg a c segPart now = Ret e404.
+Theorem C08_status_class_unknown_rep : forall fx a c segPart now,
+  find_rep (a_reps a) segPart = RMnone -> create_out_seg fx a c segPart now = Ret e404.
 Proof. exact unknown_rep_is_404. Qed.
 Print Assumptions C08_status_class_unknown_rep.
 
@@ -212,9 +212,9 @@ Theorem C08_total_guarded_partial_traffic : forall fx c segPart now,
 Proof. exact traffic_gate_safe. Qed.
 Print Assumptions C08_total_guarded_partial_traffic.
 
-Theorem C08_total_guarded_partial_periods : forall a c pph startMS nowMS,
+Theorem C08_total_guarded_partial_periods : forall fx a c pph startMS nowMS,
   1 <= pph <= 3600 -> a_segDurMS a <> 0 -> 0 <= startMS <= nowMS ->
-  is_bad (split_period a c pph startMS nowMS) = false.
+  is_bad (split_period fx a c pph startMS nowMS) = false.
 Proof. exact split_period_safe. Qed.
 Print Assumptions C08_total_guarded_partial_periods.
 
